@@ -548,15 +548,29 @@ func checkWrapper(r *Run, p *packages.Package, tname, ifaceName, ctorName string
 	}
 	tn, _ := p.Types.Scope().Lookup(tname).(*types.TypeName)
 	var provider, lock *types.Var
-	if st, ok := tn.Type().Underlying().(*types.Struct); ok {
+	// the delegate and the mutex are fields of the wrapper or of a struct it holds by value
+	var findPair func(st *types.Struct, depth int)
+	findPair = func(st *types.Struct, depth int) {
 		for i := 0; i < st.NumFields(); i++ {
 			f := st.Field(i)
 			if is, _ := isMutexType(f.Type()); is {
-				lock = f
+				lock = f.Origin()
 			} else if n := namedOf(f.Type()); n != nil && n.Obj().Name() == ifaceName {
-				provider = f
+				provider = f.Origin()
+			} else if _, isTP := f.Type().(*types.TypeParam); isTP && depth > 0 {
+				provider = f.Origin() // `guarded[P]{provider P; …}` instantiated with the interface
+			} else if inner, ok := f.Type().Underlying().(*types.Struct); ok && depth < 2 {
+				if n := namedOf(f.Type()); n != nil && n.Obj().Pkg() == p.Types {
+					if ost, ok := n.Origin().Underlying().(*types.Struct); ok {
+						inner = ost
+					}
+					findPair(inner, depth+1)
+				}
 			}
 		}
+	}
+	if st, ok := tn.Type().Underlying().(*types.Struct); ok {
+		findPair(st, 0)
 	}
 	if provider == nil || lock == nil {
 		r.Undecide("C13-R3: %s has no (delegate, mutex) field pair", tname)
@@ -571,7 +585,16 @@ func checkWrapper(r *Run, p *packages.Package, tname, ifaceName, ctorName string
 		if s == nil || originVar(s.Obj()) != f {
 			return false
 		}
-		id, ok := ast.Unparen(sel.X).(*ast.Ident)
+		// s.F, or s.<sub-struct held by value>.F
+		root := ast.Unparen(sel.X)
+		for {
+			inner, ok := root.(*ast.SelectorExpr)
+			if !ok {
+				break
+			}
+			root = ast.Unparen(inner.X)
+		}
+		id, ok := root.(*ast.Ident)
 		return ok && info.Uses[id] == recvObj(p, fd)
 	}
 	viewHelpers := map[*ast.FuncDecl]bool{} // private methods judged as the body of the interface methods that delegate to them
@@ -793,6 +816,13 @@ func checkWrapper(r *Run, p *packages.Package, tname, ifaceName, ctorName string
 			ast.Inspect(fd.Body, func(n ast.Node) bool {
 				if sel, ok := n.(*ast.SelectorExpr); ok {
 					if s := info.Selections[sel]; s != nil && originVar(s.Obj()) == provider {
+						// the field may be shared with a sibling wrapper through a common sub-struct: an access whose base
+						// variable is a different wrapper type is that wrapper's business
+						if id := rootIdent(sel.X); id != nil {
+							if bn := namedOf(info.TypeOf(id)); bn != nil && bn.Obj().Pkg() == p.Types && bn.Obj().Name() != tname && strings.HasPrefix(bn.Obj().Name(), "threadSafe") {
+								return true
+							}
+						}
 						if fd.Recv == nil && lockedOnSameBase(info, fd, sel, lock) {
 							r.Pass("C13-R3-wrapper", tname+"."+provider.Name()+"@"+funcDeclName(fd), sel.Pos(), "a helper reads the wrapped provider of another wrapper under that wrapper's lock")
 							return true
@@ -863,8 +893,8 @@ func helperUnwraps(p *packages.Package, helpers []*types.Func, tname string) boo
 // lockedOnSameBase: in a plain function, `w.provider` is read after `w.lock.Lock()` and `defer w.lock.Unlock()` on
 // the same variable w.
 func lockedOnSameBase(info *types.Info, fd *ast.FuncDecl, sel *ast.SelectorExpr, lock *types.Var) bool {
-	base, ok := ast.Unparen(sel.X).(*ast.Ident)
-	if !ok {
+	base := rootIdent(sel.X)
+	if base == nil {
 		return false
 	}
 	locked, deferred := false, false
@@ -881,8 +911,8 @@ func lockedOnSameBase(info *types.Info, fd *ast.FuncDecl, sel *ast.SelectorExpr,
 			if s := info.Selections[ls]; s == nil || originVar(s.Obj()) != lock {
 				return false
 			}
-			id, ok := ast.Unparen(ls.X).(*ast.Ident)
-			return ok && info.Uses[id] == info.Uses[base] && call.Pos() < sel.Pos()
+			id := rootIdent(ls.X)
+			return id != nil && info.Uses[id] == info.Uses[base] && call.Pos() < sel.Pos()
 		}
 		switch t := n.(type) {
 		case *ast.ExprStmt:
@@ -961,4 +991,18 @@ func checkValueReceiverWrites(r *Run, p *packages.Package) {
 	}
 	_ = n
 	r.Floor("C13-R5-value-receiver-write", 20)
+}
+
+// rootIdent: the identifier a selector chain starts from (`w` in `w.cell.provider`).
+func rootIdent(e ast.Expr) *ast.Ident {
+	for {
+		switch x := ast.Unparen(e).(type) {
+		case *ast.SelectorExpr:
+			e = x.X
+		case *ast.Ident:
+			return x
+		default:
+			return nil
+		}
+	}
 }
